@@ -78,6 +78,15 @@ impl Notification {
         };
 
         if response.status() == StatusCode::NOT_MODIFIED {
+            // Not Modified only makes sense if we asked conditionally.
+            if !state.is_some_and(|state| {
+                state.etag.is_some() || state.last_modified().is_some()
+            }) {
+                log.warn(format_args!(
+                    "Unexpected Not Modified response for notification file."
+                ));
+                return Err(Failed)
+            }
             Ok(None)
         }
         else if response.status() != StatusCode::OK {
